@@ -391,5 +391,5 @@ def hyp_cases(draw, tier):
 
 
 PARTS = [
-    Part("structure-defs", run, strategy=lambda tier: hyp_cases(tier), n={"quick": 1500, "thorough": 40000}),
+    Part("structure-defs", run, strategy=lambda tier: hyp_cases(tier), n={"quick": 1500, "thorough": 150000}),
 ]
